@@ -87,12 +87,20 @@ Vecs == {v \in VecSet : IF IsSrv(v) THEN ConfigOK(CCfg(v.cfg), D) ELSE InDomain(
 Weeks(v) == {f.week : f \in v.files}
 CRep(rep) == {[build |-> e.build, counters |-> {NameOf[n] : n \in e.counters}, stacks |-> {NameOf[n] : n \in e.stacks}] : e \in rep}
 SrvOut(v) == [fam |-> v.fam, cfg |-> v.cfg, rep |-> v.rep, d |-> D, accept |-> ServerAccepts(CCfg(v.cfg), CRep(v.rep))]
+(* The harness makes the successive random draws of one uploader run return   *)
+(* the values of XSeq in turn.  The uploader draws once per weekly report, so *)
+(* with W weeks the reports of a run carry the first W values (in any order); *)
+(* the second value lies half the range away from the first, so that rates    *)
+(* fall between the two in both directions: a report filtered with one X but  *)
+(* carrying another is not what UploadReport demands for the X it carries.     *)
+AltX(x) == (x + D \div 2) % D
+XSeq(x) == <<x, AltX(x)>>
 Out(v) ==
     IF IsSrv(v) THEN SrvOut(v) ELSE
     LET cfg == CCfg(v.cfg)  files == CFiles(v.files) IN
     [fam |-> v.fam, cfg |-> v.cfg, files |-> v.files, x |-> v.x, d |-> D,
-     mustsend |-> MustSend(cfg, v.x, D),
-     weeks |-> {WeekOut(cfg, files, w, v.x) : w \in Weeks(v)},
+     xs |-> XSeq(v.x),
+     weeks |-> {WeekOut(cfg, files, w, x) : w \in Weeks(v), x \in Rng(XSeq(v.x))},
      viewer |-> {[id |-> f.id,
                   setx |-> ViewerSetExcluded(cfg, f.build),
                   meta |-> FieldListed(cfg, f.build),
